@@ -46,12 +46,12 @@ CLAIMS['C16'] = ('proof',
     "(a structural part of the faithfulness clause); a token [begin, end) consists of exactly the bytes of its scan loop (neither the "
     "delimiter that ends the scan nor a consumed delimiter the scan would stop at, no scanned byte lost), children are only appended in "
     "parse order and a property is stored under the name/value pair one parseProp call produced; the backward trim of a text content removes whitespace bytes only (its "
-    "condition evaluated for every byte value, plain char signed); wherever one comment is accepted a run of comments is (after a skipped comment the skipper is tried again before any other parse action, helpers followed); a read loop in readXML has an exit that does not depend on fread delivering bytes; writes through self-allocated buffers stay inside them. Obligations = one per "
+    "condition evaluated for every byte value, plain char signed); wherever one comment is accepted a run of comments is (after a skipped comment the skipper is tried again before any other parse action, helpers followed); a read loop in readXML has an exit that does not depend on fread delivering bytes, and a negative ftell() result is rejected before it sizes the buffer; writes through self-allocated buffers stay inside them. Obligations = one per "
     "analysed function and clause; all must be discharged. The faithfulness clause (returned tree equals the generating "
     "tree) is a value-level property and is not decided.",
     "Trusted: clang 14 CFG; isalpha/isdigit/isspace are false at NUL; the abstract transfer functions of the rule engine "
     "(exercised by 11 seeded mutants / 4 benign rewrites). Not decided: tree faithfulness, recursion depth, exceptions "
-    "raised inside the standard library (bad_alloc), non-regular files where ftell fails.",
+    "raised inside the standard library (bad_alloc).",
     'DESIGN.md section 5, C16')
 
 # properties whose level text is the EXPLANATION string of their rule module: id -> (technique, level note)
